@@ -338,6 +338,16 @@ impl StdBroker {
                     return None;
                 }
                 let (a, _) = Self::reply_values(chan, s);
+                if d.queue == "close-after-reply" {
+                    // the reply and, right behind it in the same transmission, a channel exception
+                    self.open_channels.remove(&chan);
+                    self.closing_channels.insert(chan);
+                    self.replies.push((chan, s, format!("purge-ok {}", a)));
+                    return Some(vec![
+                        AMQPFrame::Method(chan, Queue(queue::AMQPMethod::PurgeOk(queue::PurgeOk { message_count: a }))),
+                        AMQPFrame::Method(chan, Channel(channel::AMQPMethod::Close(channel::Close { reply_code: 406, reply_text: "PRECONDITION_FAILED - after the reply".into(), class_id: 0, method_id: 0 }))),
+                    ]);
+                }
                 self.replies.push((chan, s, format!("purge-ok {}", a)));
                 f(Queue(queue::AMQPMethod::PurgeOk(queue::PurgeOk { message_count: a })))
             }
